@@ -651,7 +651,7 @@ def run(ctx, status):
     from ..extract import gen
     io_status = gen.regen_io()
     for k, v in io_status.items():
-        if v != "extracted" and k.startswith(("ang.", "symmetry.")):
+        if v not in ("extracted", "extracted (ast)", "extracted (ast+exec agree)") and k.startswith(("ang.", "symmetry.")):
             ctx.note(f"T-gen: {k} {v}")
     ctx.extra["tgen_io_tables"] = {k: v for k, v in io_status.items() if k.startswith(("ang.", "symmetry."))}
     driver_ok = lean_phase(ctx, status, ["OrixProofs.Properties.C14"])
